@@ -7,6 +7,7 @@ import (
 	"fmt"
 	"math"
 	"os"
+	"strings"
 
 	"verif/harness/common"
 
@@ -83,6 +84,14 @@ func main() {
 		}
 		strs = append(strs, s)
 	}
+
+	// strings that share storage: prefixes, suffixes and empty slices of one buffer (equal content at other addresses,
+	// equal addresses with other lengths)
+	buf := "shared-buffer-\x00\xffZ"
+	for _, k := range []int{0, 1, 6, 7, len(buf) - 1, len(buf)} {
+		strs = append(strs, buf[:k], buf[k:], strings.Clone(buf[:k]))
+	}
+	strs = append(strs, buf[len(buf):], buf[3:3])
 
 	if common.Replay != "" {
 		fmt.Fprintln(os.Stderr, "replay: C17 cases are pure functions of the operands; re-running the whole pool at the recorded seed")
